@@ -426,6 +426,29 @@ func runCase(t fataler, c writeCase) {
 			changed = true
 		}
 	}
+	// 4. a create that lets the collection choose the id and tells the caller through the id callback: the same frame
+	//    applies to the new item (nothing was there before)
+	if c.stored == nil {
+		var ropts []resource.Option
+		if c.writable != nil {
+			ropts = append(ropts, resource.WithWritableFields(lib.CloneMask(c.writable)))
+		}
+		col := resource.NewCollection(ropts...)
+		var gotID string
+		opts := append(c.writeOpts(), resource.WithGenIDIfAbsent(), resource.WithIDCallback(func(id string) { gotID = id }))
+		ret, err := col.Add("", proto.Clone(c.written), opts...)
+		var after proto.Message
+		if a, ok := col.Get(gotID); ok {
+			after = a
+		}
+		if err != nil && len(col.List()) != 0 {
+			t.Fatalf("Collection.Add with a generated id failed (%v) but created an item\ncase: %v", err, c)
+		}
+		if e := checkOutcome(c, nil, after, ret, err, "Collection.Add(generated id, id callback)"); e != nil {
+			t.Fatalf("%v\ncase: %v", e, c)
+		}
+		lib.Ev.Class("create with a generated id")
+	}
 	lib.Ev.Case(c.nontrivialKey(changed), func() any { return c.String() })
 }
 
